@@ -192,6 +192,46 @@ func ruleLineReaderValue(c *Ctx, rid string) {
 		c.analysed(f)
 		key := fnName(f) + "/value"
 		problems := []string{}
+		if call, delim := delimitedLineRead(f); call != nil && calleeName(call.Common()) != "(*bufio.Reader).ReadSlice" {
+			// buffered form: the line is the copy the delimited read returned, minus the delimiter
+			okAll := true
+			why := ""
+			for _, r := range returnsOf(f) {
+				if len(r.Results) != 2 || !isNilConst(retOperand(r, 1)) {
+					continue
+				}
+				v := strip(retOperand(r, 0))
+				isData := func(x ssa.Value) bool {
+					ex, ok := strip(x).(*ssa.Extract)
+					return ok && ex.Tuple == ssa.Value(call) && ex.Index == 0
+				}
+				switch x := v.(type) {
+				case *ssa.Extract:
+					if !isData(x) {
+						okAll, why = false, "a line is returned that is not the data of the delimited read"
+					}
+				case *ssa.Slice:
+					hi := lin{}
+					if x.High != nil {
+						hi = linOf(x.High)
+					}
+					ln := lenOf(x.X)
+					if !(isData(x.X) && x.Low == nil && x.High != nil && sameBase(hi, ln) && hi.off == ln.off-1 && delim == 13) {
+						if al, isAl := x.X.(*ssa.Alloc); !(isAl && strings.HasPrefix(deref(al.Type()).String(), "[0]")) {
+							okAll, why = false, "a line is returned that is not the read data without its one-byte delimiter: "+v.String()
+						}
+					}
+				case *ssa.MakeSlice:
+					if n, ok := constInt(x.Len); !ok || n != 0 {
+						okAll, why = false, "a line is returned that is not the read data"
+					}
+				default:
+					okAll, why = false, "a line is returned that is not the read data without its delimiter: "+v.String()
+				}
+			}
+			c.check(okAll, rid, key, c.P.pos(f.Pos()), "complete lines are the delimited read's own copy minus the delimiter", why)
+			continue
+		}
 		var buf *ssa.Alloc
 		allInstrs(f, func(ins ssa.Instruction) {
 			if a, ok := ins.(*ssa.Alloc); ok && deref(a.Type()).String() == "bytes.Buffer" {
@@ -213,16 +253,7 @@ func ruleLineReaderValue(c *Ctx, rid string) {
 				return
 			}
 			writes++
-			arg := strip(call.Common().Args[1])
-			ld, ok := arg.(*ssa.UnOp)
-			isByte := false
-			if ok && ld.Op == token.MUL {
-				if ia, ok := ld.X.(*ssa.IndexAddr); ok {
-					if _, one := oneByteBuffer(ia.X); one {
-						isByte = true
-					}
-				}
-			}
+			isByte := isJustReadByte(strip(call.Common().Args[1])) || isJustReadByte(call.Common().Args[1])
 			if !isByte {
 				problems = append(problems, "something other than the byte just read is appended to the line")
 			}
